@@ -10,6 +10,7 @@ import (
 	"io"
 	"log/slog"
 	"os"
+	"os/exec"
 	"path/filepath"
 	"regexp"
 	"sort"
@@ -69,6 +70,8 @@ type Check struct {
 	viol        map[string]*violation
 	order       []string
 	MaxSamples  int
+
+	childIncomplete bool
 }
 
 func New(id, level string) *Check {
@@ -178,10 +181,125 @@ func LoadFindings() []Finding {
 	return out
 }
 
+// History names the process history this (child) process runs under; "" in the parent. See RunHistories.
+func History() string { return os.Getenv("VERIF_HISTORY") }
+
+type childViolation struct {
+	Sig    string `json:"sig"`
+	Desc   string `json:"desc"`
+	Replay any    `json:"replay"`
+	Count  int    `json:"count"`
+}
+
+type childResult struct {
+	Evaluations int64            `json:"evaluations"`
+	Distinct    int64            `json:"distinct"`
+	States      int64            `json:"states"`
+	Transitions int64            `json:"transitions"`
+	Traces      int64            `json:"traces"`
+	Exhaustive  bool             `json:"exhaustive"`
+	Violations  []childViolation `json:"violations"`
+}
+
+// RunHistories re-runs this check in fresh child processes, one per named process history (state that only a new process
+// resets: lazily built per-type plans, registries, pools). Each child is this binary with VERIF_HISTORY=<name>; the check
+// function looks at History() to prepare that history (e.g. a warm-up) before doing its normal work. The children's counts
+// and violations are folded into this check; a child that dies is itself a violation (the library crashed the process).
+func (c *Check) RunHistories(names []string) {
+	if History() != "" || len(names) == 0 {
+		return
+	}
+	type res struct {
+		name string
+		r    childResult
+		err  string
+	}
+	out := make([]res, len(names))
+	var wg sync.WaitGroup
+	for i, n := range names {
+		wg.Add(1)
+		go func(i int, n string) {
+			defer wg.Done()
+			out[i].name = n
+			f, err := os.CreateTemp("", "verif-child-*.json")
+			if err != nil {
+				out[i].err = err.Error()
+				return
+			}
+			f.Close()
+			defer os.Remove(f.Name())
+			cmd := exec.Command(os.Args[0], os.Args[1:]...)
+			cmd.Env = append(os.Environ(), "VERIF_HISTORY="+n, "VERIF_CHILD_OUT="+f.Name())
+			ob, rerr := cmd.CombinedOutput()
+			b, _ := os.ReadFile(f.Name())
+			if jerr := json.Unmarshal(b, &out[i].r); rerr != nil || jerr != nil {
+				tail := string(ob)
+				if len(tail) > 1500 {
+					tail = tail[len(tail)-1500:]
+				}
+				out[i].err = fmt.Sprintf("child process for history %q failed (%v, %v): %s", n, rerr, jerr, tail)
+			}
+		}(i, n)
+	}
+	wg.Wait()
+	c.mu.Lock()
+	defer c.mu.Unlock()
+	hist := map[string]any{}
+	for _, o := range out {
+		if o.err != "" {
+			sig := "process-died:history=" + o.name
+			c.viol[sig] = &violation{Sig: sig, Desc: o.err, Replay: map[string]any{"kind": "process-history", "history": o.name}, Count: 1}
+			c.order = append(c.order, sig)
+			continue
+		}
+		c.Evaluations += o.r.Evaluations
+		c.DistinctN += o.r.Distinct
+		c.States += o.r.States
+		c.Transitions += o.r.Transitions
+		c.Traces += o.r.Traces
+		if !o.r.Exhaustive {
+			c.childIncomplete = true
+		}
+		hist[o.name] = map[string]any{"evaluations": o.r.Evaluations, "violations": len(o.r.Violations)}
+		for _, v := range o.r.Violations {
+			if old := c.viol[v.Sig]; old != nil {
+				old.Count += v.Count
+				continue
+			}
+			rep := map[string]any{"process_history": o.name, "replay": v.Replay}
+			c.viol[v.Sig] = &violation{Sig: v.Sig, Desc: "[process history: " + o.name + "] " + v.Desc, Replay: rep, Count: v.Count}
+			c.order = append(c.order, v.Sig)
+		}
+	}
+	c.Extra["process_histories"] = hist
+}
+
+// finishChild writes the machine-readable result of a child process (see RunHistories).
+func (c *Check) finishChild(path string) int {
+	r := childResult{Evaluations: c.Evaluations, Distinct: int64(len(c.distinct)) + c.DistinctN, States: c.States, Transitions: c.Transitions, Traces: c.Traces, Exhaustive: c.Exhaustive}
+	sort.Strings(c.order)
+	for _, sig := range c.order {
+		v := c.viol[sig]
+		r.Violations = append(r.Violations, childViolation{Sig: v.Sig, Desc: v.Desc, Replay: v.Replay, Count: v.Count})
+	}
+	b, _ := json.Marshal(r)
+	if err := os.WriteFile(path, b, 0o644); err != nil {
+		fmt.Fprintln(os.Stderr, "cannot write child result:", err)
+		return 2
+	}
+	return 0
+}
+
 // Finish prints KNOWN-FINDING / VIOLATION lines, writes replay and evidence files and returns the exit code.
 func (c *Check) Finish() int {
 	c.mu.Lock()
 	defer c.mu.Unlock()
+	if p := os.Getenv("VERIF_CHILD_OUT"); p != "" && History() != "" {
+		return c.finishChild(p)
+	}
+	if c.childIncomplete {
+		c.Exhaustive = false
+	}
 	known := map[string]Finding{}
 	for _, f := range LoadFindings() {
 		if f.Property == c.ID && f.Status == "known" {
